@@ -1,0 +1,125 @@
+//go:build verif
+
+package swap
+
+import (
+	"context"
+	"sync"
+	"time"
+)
+
+// Verification hooks (build tag verif). They only expose knobs that are
+// otherwise hard-coded durations, unexported fields or unexported interface
+// methods; no protocol logic lives here.
+
+var (
+	verifMu         sync.Mutex
+	verifPayIval    time.Duration
+	verifPayRetry   time.Duration
+	verifBackoffOff bool
+)
+
+// VerifSetPayTiming overrides the claim-payment retry tick and budget (0 keeps the default).
+func VerifSetPayTiming(interval, retryTime time.Duration) {
+	verifMu.Lock()
+	defer verifMu.Unlock()
+	verifPayIval, verifPayRetry = interval, retryTime
+}
+
+// VerifSetNoBackoff disables the sleeping between Event_OnRetry rounds.
+func VerifSetNoBackoff(off bool) {
+	verifMu.Lock()
+	defer verifMu.Unlock()
+	verifBackoffOff = off
+}
+
+func verifPayTiming(interval, retryTime time.Duration) (time.Duration, time.Duration) {
+	verifMu.Lock()
+	defer verifMu.Unlock()
+	if verifPayIval != 0 {
+		interval = verifPayIval
+	}
+	if verifPayRetry != 0 {
+		retryTime = verifPayRetry
+	}
+	return interval, retryTime
+}
+
+func verifNoBackoff() bool {
+	verifMu.Lock()
+	defer verifMu.Unlock()
+	return verifBackoffOff
+}
+
+// VerifTimeout is one armed time-out.
+type VerifTimeout struct {
+	Ctx      context.Context
+	Duration time.Duration
+	SwapId   string
+	fire     func()
+}
+
+// Fire runs the real time-out callback of the service unless the time-out was cancelled.
+func (v *VerifTimeout) Fire() bool {
+	if v.Ctx.Err() != nil {
+		return false
+	}
+	v.fire()
+	return true
+}
+
+// VerifTimeouts is a harness-owned TimeOutService: it records armed time-outs
+// instead of starting wall-clock timers; the harness fires them when it wants.
+type VerifTimeouts struct {
+	mu    sync.Mutex
+	svc   *SwapService
+	Armed []*VerifTimeout
+}
+
+func (v *VerifTimeouts) addNewTimeOut(ctx context.Context, d time.Duration, id string) {
+	v.mu.Lock()
+	defer v.mu.Unlock()
+	v.Armed = append(v.Armed, &VerifTimeout{Ctx: ctx, Duration: d, SwapId: id, fire: v.svc.createTimeoutCallback(id)})
+}
+
+// Snapshot returns the armed time-outs so far.
+func (v *VerifTimeouts) Snapshot() []*VerifTimeout {
+	v.mu.Lock()
+	defer v.mu.Unlock()
+	return append([]*VerifTimeout{}, v.Armed...)
+}
+
+// VerifUseTimeouts replaces the wall-clock time-out service (call after Start).
+func (s *SwapService) VerifUseTimeouts() *VerifTimeouts {
+	v := &VerifTimeouts{svc: s}
+	s.swapServices.toService = v
+	return v
+}
+
+// VerifActiveSwapIds lists the ids in the active-swap map.
+func (s *SwapService) VerifActiveSwapIds() []string {
+	s.RLock()
+	defer s.RUnlock()
+	ids := make([]string, 0, len(s.activeSwaps))
+	for id := range s.activeSwaps {
+		ids = append(ids, id)
+	}
+	return ids
+}
+
+// VerifCheckPaymentWindow exposes checkPaymentWindow for differential tests.
+func VerifCheckPaymentWindow(anchor uint32, anchorSet bool, current uint32, window uint32) error {
+	return checkPaymentWindow(&SwapData{StartingBlockHeight: anchor, StartingBlockHeightSet: anchorSet}, current, timelockPolicy{PaymentWindow: window})
+}
+
+// VerifValidateClaimInvoice exposes validateClaimInvoice.
+func VerifValidateClaimInvoice(paymentAmountMsat uint64, finalCLTVDelta int64, claimAmountSat uint64, maxFinalCLTV uint64) error {
+	return validateClaimInvoice(paymentAmountMsat, finalCLTVDelta, claimAmountSat, timelockPolicy{InvoiceFinalCLTV: maxFinalCLTV})
+}
+
+// VerifTimelockPolicy exposes the per-chain/version limits.
+func VerifTimelockPolicy(asset, network string, version uint8) (csv, window uint32, finalCLTV uint64, maxTotal uint32, allowNew bool, err error) {
+	sd := &SwapData{SwapOutRequest: &SwapOutRequestMessage{ProtocolVersion: version, Asset: asset, Network: network}}
+	p, err := sd.getTimelockPolicy()
+	return p.CSV, p.PaymentWindow, p.InvoiceFinalCLTV, p.MaxTotalCLTVDelta, p.AllowNewClaimPayment, err
+}
